@@ -201,3 +201,41 @@ def install_concrete_float() -> None:
         return float(val)
 
     core._PATCH_REGISTRATIONS[float] = model_float
+
+
+def install_int_repr_placeholder() -> None:
+    """str()/repr() of a symbolic int forks on the number of digits (x34 for I-JSON ints).  Evaluation harnesses never look
+    at such strings (IndexSelector.__init__ computes an unused ``_as_key = str(index)``), so they get a placeholder."""
+    builtinslib.SymbolicInt.__repr__ = lambda self: "<symbolic int>"  # type: ignore[assignment]
+
+
+def install_regex_stub() -> None:
+    """M10: the foreign regex engine (C extension) cannot take symbolic strings - and the library's own
+    ``except TypeError: return False`` would silently turn that into a wrong answer.  For patterns without
+    constructs outside Python's ``re`` (no \\p{..}, i.e. no rewritten '.'), ``regex.fullmatch/search`` are modelled by
+    the standard ``re`` functions, which the executor keeps symbolic; otherwise the arguments are realized."""
+    import re as pyre
+
+    import regex
+
+    def _model(realfn, pyfn):
+        def model(pattern, string, *flags, **kw):
+            if not isinstance(string, str):  # what the C function does with a non-string subject
+                raise TypeError("expected string or buffer")
+            with NoTracing():
+                pat = deep_realize(pattern)
+                sym = isinstance(string, builtinslib.AnySymbolicStr)
+            if sym and isinstance(pat, str) and "\\p" not in pat and "\\P" not in pat:
+                try:
+                    pyre.compile(pat)
+                except pyre.error:
+                    raise regex.error("invalid pattern (model)")
+                return pyfn(pat, string)
+            with NoTracing():
+                string = deep_realize(string)
+            return realfn(pat, string, *flags, **kw)
+
+        return model
+
+    core._PATCH_REGISTRATIONS[regex.fullmatch] = _model(regex.fullmatch, pyre.fullmatch)
+    core._PATCH_REGISTRATIONS[regex.search] = _model(regex.search, pyre.search)
